@@ -706,6 +706,13 @@ fn run_history(h: &[Req]) -> RunOut {
                 let mut convs: Vec<ConvOut> = (0..4).map(|s| convert_native(&def, &res, s)).collect();
                 convs.push(convert_generic(&def, false));
                 convs.push(convert_generic(&def, true));
+                // C19: the same replay made twice in one process gives the same definition (an iteration order that
+                // depends on per-instance hashing differs from one call to the next)
+                for (ci, again) in [(1usize, convert_native(&def, &res, 1)), (5usize, convert_generic(&def, true))] {
+                    if again.enc != convs[ci].enc {
+                        oracle.fail("C19", format!("conversion #{}: replaying the same definition twice in one process gives two different definitions", ci));
+                    }
+                }
                 for (ci, c) in convs.iter().enumerate() {
                     obs.push(c.enc.clone());
                     match (&c.map, &c.target) {
@@ -906,6 +913,60 @@ fn gen_history(rng: &mut Rng, long: bool) -> Vec<Req> {
     h
 }
 
+/// wide histories: 40 to 80 data in the first variant, then steps that remove 30% to 95% of the live data in a
+/// scattered order and add up to 40 more (counts above any small threshold: many gaps in one close, long removal
+/// lists); valid requests only, strategies mixed
+fn gen_history_wide(rng: &mut Rng) -> Vec<Req> {
+    let mut h = Vec::new();
+    let mut next_id = 0u64;
+    let mut next_name = 0u32;
+    let mut cur: Vec<u64> = Vec::new();
+    let nvariants = 3 + rng.below(4);
+    for v in 0..nvariants {
+        let nadd = if v == 0 { 40 + rng.below(121) } else { rng.below(41) };
+        let nrm = if v == 0 { 0 } else { cur.len() * (30 + rng.below(66)) / 100 };
+        let mut live = cur.clone();
+        match rng.below(4) {
+            0 => live.reverse(),
+            1 => {}
+            2 => {
+                // every other live datum first: as many separate holes as possible
+                let (even, odd): (Vec<(usize, u64)>, Vec<(usize, u64)>) = live.iter().cloned().enumerate().partition(|(k, _)| k % 2 == 0);
+                live = even.into_iter().chain(odd).map(|(_, i)| i).collect();
+            }
+            _ => {
+                for i in (1..live.len()).rev() {
+                    let j = rng.below(i + 1);
+                    live.swap(i, j);
+                }
+            }
+        }
+        let rm: Vec<u64> = live.into_iter().take(nrm).collect();
+        let adds_first = rng.chance(50);
+        let small = rng.chance(50);
+        let mut adds = Vec::new();
+        for _ in 0..nadd {
+            let (s, a) = if small { (1 + rng.below(4) as u64, 1u64 << rng.below(3)) } else { gen_shape(rng) };
+            adds.push(Req::Add { name: next_name, size: s, align: a, uninit: rng.chance(25), entry: rng.below(5) as u8 });
+            cur.push(next_id);
+            next_id += 1;
+            next_name += 1;
+        }
+        let rms: Vec<Req> = rm.iter().map(|i| Req::Remove(*i)).collect();
+        cur.retain(|i| !rm.contains(i));
+        if adds_first {
+            h.extend(adds);
+            h.extend(rms);
+        } else {
+            h.extend(rms);
+            h.extend(adds);
+        }
+        // the gap-filling strategy half of the time
+        h.push(Req::Close(if rng.chance(50) { 0 } else { rng.below(4) as u8 }));
+    }
+    h
+}
+
 // ------------------------------------------------------------------ small-scope enumeration
 
 const ENUM_SHAPES: [(u64, u64); 7] = [(0, 1), (1, 1), (3, 1), (2, 2), (4, 4), (12, 4), (8, 8)];
@@ -1007,13 +1068,14 @@ fn main_inner() {
     let shards: usize = arg_value(&args, "--shards").map_or(1, |s| s.parse().unwrap());
     let out_dir = arg_value(&args, "--out").unwrap_or_else(|| ".".into());
     let with_model = !args.iter().any(|a| a == "--no-model");
+    let wide: usize = arg_value(&args, "--wide").map_or(0, |s| s.parse().unwrap());
 
     let mut histories: Vec<Vec<Req>> = Vec::new();
     match mode.as_str() {
         "random" => {
             let mut rng = Rng::new(seed);
             for k in 0..count {
-                let mut h = gen_history(&mut rng, k % 10 == 9);
+                let mut h = if wide != 0 && k % wide == wide / 2 { gen_history_wide(&mut rng) } else { gen_history(&mut rng, k % 10 == 9) };
                 if k % 12 == 5 {
                     // the same requests against the generic builder: its own two strategies
                     for r in h.iter_mut() {
